@@ -411,7 +411,8 @@ QUICK_SETS = {
             "c11_shape_equal_list2_list1 c11_shape_equal_list3_unit_mid c11_shape_equal_list_pair_unit c11_shape_not_equal_nested_pairs").split(),
     "C07": ("c09_ii_plus c09_ii_subtract c09_ii_multiply c09_ii_divide c09_ii_integer_divide c09_ii_remainder_unit_conditions c09_ii_remainder_small_divisor "
             "c09_ii_power_small_base c09_ii_power_negative_exponent c09_i_unary c09_ii_bitwise c09_ii_shift_left c09_ii_shift_right "
-            "disp_access_pair disp_access_byte_list disp_access_range disp_apply_pair disp_apply_char_list store_basic_readback_x2 store_basic_readback").split(),
+            "disp_access_pair disp_access_byte_list disp_access_range disp_apply_pair disp_apply_char_list store_basic_readback_x2 store_basic_readback "
+            "c07_cast_slice_to_list c07_cast_slice_to_char_list c07_cast_range_to_list").split(),
     "C08": ("c08_op_add c08_op_divide c08_op_subtract c08_op_opposite c08_op_bitwise_shift_left c08_op_power step_make_pair step_make_range step_make_exclusive_range step_type_equal "
             "disp_access_symbol disp_access_expression disp_access_symbol_list disp_access_byte_list disp_access_pair disp_access_number disp_access_range "
             "disp_apply_char_list disp_apply_expression disp_apply_pair disp_apply_symbol disp_apply_number").split(),
